@@ -506,7 +506,7 @@ static void spline_monitor(Report & rep)
     regs.push_back(make_base());
     check(regs.back(), "constructor");
     for (int op = 0; op < nops; ++op) {
-      const int kind = r.below(7);
+      const int kind = r.below(8);
       const size_t ia = size_t(r.below(int(regs.size())));
       if (kind == 0 && regs.size() < 5) {
         regs.push_back(make_base());
@@ -520,7 +520,14 @@ static void spline_monitor(Report & rep)
         n->a    = regs[ia].model;
         n->b    = regs[ib].model;
         Reg<K, G> x;
-        if (kind == 1) {
+        // the operand may be the destination itself (x += x repeats a motion): no copy of the operand is made then
+        const bool self = ia == ib && r.coin(0.6);
+        if (self) {
+          x.lib = regs[ia].lib;
+          if (kind == 1) x.lib += x.lib;
+          else x.lib.concat_local(x.lib);
+          rep.count("C12.self_concat_local");
+        } else if (kind == 1) {
           x.lib = regs[ia].lib;
           x.lib += regs[ib].lib;
         } else {
@@ -528,10 +535,10 @@ static void spline_monitor(Report & rep)
         }
         x.model = n;
         const size_t dst = regs.size() < 5 ? regs.size() : ia;
-        hist += "r" + std::to_string(dst) + "=r" + std::to_string(ia) + (kind == 1 ? "+=r" : "+r") + std::to_string(ib) + ";";
+        hist += "r" + std::to_string(dst) + "=r" + std::to_string(ia) + (self ? "+=self:r" : (kind == 1 ? "+=r" : "+r")) + std::to_string(ib) + ";";
         if (dst == regs.size()) regs.push_back(x);
         else regs[dst] = x;
-        check(regs[dst], "concat_local");
+        check(regs[dst], self ? "concat_local.self" : "concat_local");
       } else if (kind == 3) {
         const size_t ib = size_t(r.below(int(regs.size())));
         if (M.segments(regs[ia].model) + M.segments(regs[ib].model) > 8) continue;
@@ -541,12 +548,39 @@ static void spline_monitor(Report & rep)
         n->b    = regs[ib].model;
         Reg<K, G> x;
         x.lib = regs[ia].lib;
-        x.lib.concat_global(regs[ib].lib);
+        const bool self = ia == ib && r.coin(0.6);
+        if (self) {
+          x.lib.concat_global(x.lib);
+          rep.count("C12.self_concat_global");
+        } else {
+          x.lib.concat_global(regs[ib].lib);
+        }
         x.model = n;
-        hist += "r" + std::to_string(ia) + ".concat_global(r" + std::to_string(ib) + ");";
+        hist += "r" + std::to_string(ia) + ".concat_global(" + (self ? "self:r" : "r") + std::to_string(ib) + ");";
         regs[ia] = x;
-        check(regs[ia], "concat_global");
-      } else if (kind >= 4) {
+        check(regs[ia], self ? "concat_global.self" : "concat_global");
+      } else if (kind == 7) {
+        // make_local(): y(t) = x(0)^-1 x(t), i.e. the localised crop over the whole range
+        const L tm = M.tmax(regs[ia].model);
+        Reg<K, G> x;
+        x.lib = regs[ia].lib;
+        x.lib.make_local();
+        auto n = std::make_shared<Node>();
+        if (!(tm > 0)) {
+          n->kind = Node::Empty;
+          n->ga   = orc::eye(l.dim);
+        } else {
+          n->kind     = Node::Crop;
+          n->a        = regs[ia].model;
+          n->ta       = 0;
+          n->tb       = tm;
+          n->localize = true;
+        }
+        x.model = n;
+        hist += "r" + std::to_string(ia) + ".make_local();";
+        regs[ia] = x;
+        check(regs[ia], "make_local");
+      } else if (kind >= 4 && kind <= 6) {
         // crop: interval kinds (first segment, later segment, on a knot, ending on a knot, zero length, out of range)
         const L tm = M.tmax(regs[ia].model);
         std::vector<L> kn;
